@@ -103,6 +103,8 @@ def gen_atimes(r, nd=None):
     per = [int(r.random() < 0.5) for _ in range(nd)]
     hi = 6 if nd == 2 else 4
     nxp = [r.choice([2, 2, 3, r.randint(2, hi)]) for _ in range(nd)]
+    if nd == 2 and r.random() < 0.25:
+        nxp = [r.randint(2, 11) for _ in range(nd)]
     exact = r.random() < 0.8
     w = [r.choice(WIDTHS_P2 if exact else WIDTHS_ANY) for _ in range(nd)]
     if nd == 3:
@@ -530,8 +532,12 @@ def check(run):
                 run.violation("atimes:out-of-bounds", "atimes indexes its arrays outside the %d grid values: %s [case: %s]" % (len(c["x"]), io.split("|", 1)[1], l[:300]),
                               {"kind": "unit", "case": l, "impl": io})
         iox, ioy = iox.split("|")[0], ioy.split("|")[0]
-        tie("atimes", lx, iox, mox)
-        tie("atimes", ly, ioy, moy)
+        for (l, io, mo) in ((lx, iox, mox), (ly, ioy, moy)):
+            mparts = mo.split("|")
+            tie("atimes", l, io, mparts[0])
+            if len(mparts) > 1:      # 2-D: the loop-by-loop model of atimes, same flat array
+                if not same(parse_floats(io.split()[1:]), parse_floats(mparts[1].split())):
+                    run.mismatch("atimes-loops", l, io[:400], mparts[1][:400])
         Lx, Ly = parse_floats(iox.split()[1:]), parse_floats(ioy.split()[1:])
         if not (finite(Lx) and finite(Ly)):
             run.violation("atimes:not-finite", "atimes returned non-finite values for finite input [case: %s]" % lx[:300], {"kind": "unit", "case": lx, "case2": ly, "impl": iox})
